@@ -227,3 +227,26 @@ func ImplMethod(pkg *types.Package, named *types.Named, name string) *types.Func
 	f, _ := o.(*types.Func)
 	return f
 }
+
+// RecvNameOf returns the receiver's named type name of a method object ("" for functions).
+func RecvNameOf(f *types.Func) string {
+	sig, _ := f.Type().(*types.Signature)
+	if sig == nil || sig.Recv() == nil {
+		return ""
+	}
+	if n := NamedOf(sig.Recv().Type()); n != nil {
+		return n.Obj().Name()
+	}
+	return ""
+}
+
+// FindCaseClausesIn returns the case clauses inside fd whose label list uses obj.
+func FindCaseClausesIn(p *packages.Package, fd *ast.FuncDecl, obj types.Object) []ClauseRef {
+	var out []ClauseRef
+	for _, r := range FindCaseClauses(p, obj) {
+		if r.Fn == fd {
+			out = append(out, r)
+		}
+	}
+	return out
+}
